@@ -516,8 +516,14 @@ func runParent(args []string) int {
 	sort.Strings(sigs)
 	nviol := 0
 	known := 0
-	_ = os.MkdirAll(filepath.Join(o.verif, "replays"), 0o755)
-	if stale, _ := filepath.Glob(filepath.Join(o.verif, "replays", o.check+"-"+o.tier+"-*.json")); len(stale) > 0 {
+	// VERIF_OUTDIR redirects replay and evidence files (used for runs against a deliberately broken copy of the
+	// tree, which must not overwrite the evidence of the real tree)
+	outRoot := o.verif
+	if e := os.Getenv("VERIF_OUTDIR"); e != "" {
+		outRoot = e
+	}
+	_ = os.MkdirAll(filepath.Join(outRoot, "replays"), 0o755)
+	if stale, _ := filepath.Glob(filepath.Join(outRoot, "replays", o.check+"-"+o.tier+"-*.json")); len(stale) > 0 {
 		for _, f := range stale {
 			_ = os.Remove(f)
 		}
@@ -540,7 +546,7 @@ func runParent(args []string) int {
 		if nviol > 25 {
 			continue
 		}
-		path := filepath.Join(o.verif, "replays", fmt.Sprintf("%s-%s-%016x.json", o.check, o.tier, hash(s)))
+		path := filepath.Join(outRoot, "replays", fmt.Sprintf("%s-%s-%016x.json", o.check, o.tier, hash(s)))
 		rep := map[string]any{"property": o.check, "tier": o.tier, "signature": s, "what": v.What, "scenario": v.Scenario, "failing_cases": v.Count}
 		b, _ := json.MarshalIndent(rep, "", " ")
 		_ = os.WriteFile(path, b, 0o644)
@@ -589,8 +595,8 @@ func runParent(args []string) int {
 		ev["assumptions"] = []string{}
 	}
 	b, _ := json.MarshalIndent(ev, "", " ")
-	_ = os.MkdirAll(filepath.Join(o.verif, "evidence"), 0o755)
-	if err := os.WriteFile(filepath.Join(o.verif, "evidence", o.check+".json"), b, 0o644); err != nil {
+	_ = os.MkdirAll(filepath.Join(outRoot, "evidence"), 0o755)
+	if err := os.WriteFile(filepath.Join(outRoot, "evidence", o.check+".json"), b, 0o644); err != nil {
 		fmt.Fprintln(os.Stderr, err)
 		return 2
 	}
